@@ -309,9 +309,10 @@ Definition parse_git_header_name (strip : Z) (s : list N) : res (list N) :=
   Ok (strip_path name strip).
 
 (* parse_filename lambda of parse_git_extended_info *)
+Definition ext_strip (strip : Z) : Z := if Z.ltb 0 strip then strip - 1 else strip.
 Definition git_ext_filename (strip : Z) (prefix : list N) (s : list N) : res (list N) :=
   do out <- (match s with
-             | 34%N :: _ => do x <- parse_quoted_string s; Ok (strip_path (fst x) (strip - 1))
-             | _ => Ok (strip_path s (strip - 1))
+             | 34%N :: _ => do x <- parse_quoted_string s; Ok (strip_path (fst x) (ext_strip strip))
+             | _ => Ok (strip_path s (ext_strip strip))
              end);
   Ok (if Z.eqb strip 0 then prefix ++ out else out).
